@@ -1,15 +1,15 @@
 INIT SimInit
 NEXT SimNext
 CONSTANTS
-  N = 2
-  MaxSess = 6
-  MaxRpc = 3
+  N = 1
+  MaxSess = 2
+  MaxRpc = 1
   InLock = TRUE
-  MaxWedged = 1
-  MaxBurst = 4
-  MaxHold = 2
-  MaxSick = 2
+  MaxWedged = 0
+  MaxBurst = 2
+  MaxHold = 0
+  MaxSick = 0
   MaxReset = 2
   AllowReset = TRUE
-  Depth = 22
+  Depth = 9
 CHECK_DEADLOCK FALSE
